@@ -29,8 +29,18 @@ def gen_cases(tier, seed):
     for i in range(n):
         d = gs.gen_spec(rnd, rnd.choice(["mm1", "mv1", "ew1", "chain2", "chain2", "fanin2", "mvchain2"] + (["chain3"] if tier != "quick" else [])),
                         levels=rnd.choice([2, 2, 2, 3]))
-        cases.append({"class": d["class"].split("/")[0] + "/" + d["arch"]["size_class"], "desc": d,
-                      "metrics": METRICS[i % len(METRICS)]})
+        cls = d["class"].split("/")[0] + "/" + d["arch"]["size_class"]
+        if i % 5 == 4:
+            # persistent tensors (resident in their backing store for the whole workload) next to non-persistent
+            # ones in a FINITE backing store, so that a wrong persistent flag in the returned tree changes usage
+            if rnd.random() < 0.4:
+                d = gs.gen_spec(rnd, "pshare2", levels=2)
+                d["workload"]["persistent"] = "P"
+            else:
+                d["workload"]["persistent"] = rnd.choice(["Inputs - Intermediates", "All - Intermediates", "Outputs - Intermediates"])
+            d["arch"]["mems"][0]["size"] = 2 ** 16 * d["workload"]["bits"]
+            cls = d["class"].split("/")[0] + "/persistent"
+        cases.append({"class": cls, "desc": d, "metrics": METRICS[(i // 5 if i % 5 == 4 else i) % len(METRICS)]})
     return cases
 
 
@@ -57,12 +67,22 @@ def run_case(case):
         except H.NoMapping:
             bump("no_valid_mapping")
             return {"status": "ok", "counters": counters, "reason": "no valid mapping"}
+        except (AssertionError, AttributeError, KeyError, IndexError, TypeError) as ex:
+            import traceback
+            if not any("/accelforge/" in f.filename for f in traceback.extract_tb(ex.__traceback__)):
+                raise
+            bump("mapper_internal_error(judged by C03):" + type(ex).__name__)
+            return {"status": "ok", "counters": counters, "reason": "mapper raised an internal error"}
         data = res.data
         rows = H.result_rows(res)
         for i, row in enumerate(rows[:12]):
             try:
                 ev = H.eval_tree(d, row["tree"])
             except Exception as ex:
+                from ..ref.validator import validate
+                if any(p[0] == "tensor_held_twice_by_one_component" for p in validate(d, row["tree"], check_capacity=False)):
+                    bump("ill_formed_returned_tree(judged by C03)")
+                    continue
                 viol.append({"sig": f"returned_mapping_rejected_by_model:{type(ex).__name__}",
                              "witness": {"detail": detail, "row": i, "error": str(ex)[:300], "tree": row["tree"]}})
                 continue
@@ -90,6 +110,10 @@ def run_case(case):
                         if not H.close(tot, float(pe[en]), rel=2.0 ** -16):
                             bad.append(["per_einsum_energy:" + en, tot, float(pe[en])])
                         bump("per_einsum_breakdowns_compared")
+            if bad and all(b[0].startswith("usage:") for b in bad) and _explained_by_holder_order(H, d, row["tree"], bad, bump):
+                viol.append({"sig": "usage_depends_on_order_of_adjacent_holders",
+                             "witness": {"metrics": metrics, "row": i, "differences(reported, standalone)": bad, "tree": row["tree"]}})
+                bad = []
             if bad:
                 what = sorted({b[0].split(":")[0] for b in bad})
                 viol.append({"sig": ("detailed" if detail else "joined") + "_total_differs:" + "+".join(what),
@@ -101,6 +125,94 @@ def run_case(case):
                           "standalone": {"energy": e2, "latency": l2, "usage": ru}, "tree": row["tree"]}
     return {"status": "violation" if viol else "ok", "violations": viol[:4], "nontrivial": nontriv,
             "counters": counters, "sample": sample}
+
+
+def _explained_by_holder_order(H, d, tree, bad, bump, cap=60):
+    """Attribution of a usage difference: the detailed run evaluates the joiner's own tree, the user gets the same
+    loop nest with adjacent storage nodes consolidated.  If re-ordering adjacent storage nodes (one tensor per node)
+    of the returned tree makes the model reproduce the reported usage, the difference is the order dependence of
+    the model's usage (the mechanism recorded for C06), not a new defect."""
+    import itertools
+
+    def variants(nodes):
+        # maximal runs of adjacent storage nodes -> every order of their single-tensor nodes
+        runs, i = [], 0
+        while i < len(nodes):
+            if nodes[i]["t"] == "S":
+                j = i
+                singles = []
+                while j < len(nodes) and nodes[j]["t"] == "S":
+                    for t in nodes[j]["tensors"]:
+                        singles.append(dict(nodes[j], tensors=[t]))
+                    j += 1
+                runs.append((i, j, singles))
+                i = j
+            else:
+                i += 1
+        choices = []
+        for (a, b, singles) in runs:
+            perms = list(itertools.islice(itertools.permutations(singles), 24)) if len(singles) > 1 else [tuple(singles)]
+            choices.append(perms)
+        for combo in itertools.islice(itertools.product(*choices), cap):
+            out, pos = [], 0
+            for (a, b, _), perm in zip(runs, combo):
+                out += nodes[pos:a] + list(perm)
+                pos = b
+            out += nodes[pos:]
+            yield out
+
+    def expand(nodes):
+        # variants of the prefix x variants of every branch (bounded)
+        qi = next((k for k, n in enumerate(nodes) if n["t"] == "Q"), None)
+        if qi is None:
+            yield from variants(nodes)
+            return
+        for pre in itertools.islice(variants(nodes[:qi]), 8):
+            for brs in itertools.islice(itertools.product(*[list(itertools.islice(expand(b), 6)) for b in nodes[qi]["branches"]]), 12):
+                yield pre + [dict(nodes[qi], branches=list(brs))] + nodes[qi + 1:]
+    def pushed_down(nodes):
+        """The storage nodes directly above a sequential split moved into every branch that uses the tensor (the
+        joiner's own tree keeps shared holders inside the branches; the returned tree lifts them above the split)."""
+        qi = next((k for k, n in enumerate(nodes) if n["t"] == "Q"), None)
+        if qi is None:
+            return None
+        a = qi
+        while a > 0 and nodes[a - 1]["t"] == "S":
+            a -= 1
+        if a == qi:
+            return None
+        lifted = [dict(n, tensors=[t]) for n in nodes[a:qi] for t in n["tensors"]]
+        uses = {e["name"]: {t["name"] for t in e["tensors"]} for e in d["workload"]["einsums"]}
+
+        def einsums(b):
+            out = set()
+            for n in b:
+                if n["t"] == "C":
+                    out.add(n["einsum"])
+                elif n["t"] == "Q":
+                    for bb in n["branches"]:
+                        out |= einsums(bb)
+            return out
+        brs = []
+        for b in nodes[qi]["branches"]:
+            used = set().union(*[uses[e] for e in einsums(b)])
+            brs.append([n for n in lifted if n["tensors"][0] in used] + list(b))
+        return nodes[:a] + [dict(nodes[qi], branches=brs)] + nodes[qi + 1:]
+    want = {b[0].split(":", 1)[1]: b[1] for b in bad}
+    n = 0
+    pd = pushed_down(tree)
+    for v in itertools.chain(expand(pd) if pd else [], expand(tree)):
+        n += 1
+        if n > cap:
+            break
+        try:
+            ru = {k: float(x) for k, x in H.eval_tree(d, v).resource_usage().items()}
+        except Exception:
+            continue
+        bump("holder_order_variants_evaluated")
+        if all(H.close(ru.get(m, -1), u, rel=2.0 ** -18, abs_tol=1e-6) for m, u in want.items()):
+            return True
+    return False
 
 
 def _accepts(fn, name):
